@@ -361,7 +361,7 @@ func (s *PhraseSearcher) checkCurrMustMatchField(ctx *search.SearchContext,
 					Pos:            pp.loc.Pos,
 					Start:          pp.loc.Start,
 					End:            pp.loc.End,
-					ArrayPositions: pp.loc.ArrayPositions,
+					ArrayPositions: append(search.ArrayPositions(nil), pp.loc.ArrayPositions...),
 				},
 			})
 		}
